@@ -87,6 +87,10 @@ func (unpacker *RtpUnpackerAvcHevc) TryUnpackOne(list *RtpPacketList) (unpackedF
 				return false, 0
 			}
 			naluSize := int(bele.BeUint16(buf[i:]))
+			if naluSize > len(buf)-i-2 {
+				Log.Errorf("[%p] invalid STAP-A packet. len(buf)=%d, i=%d, naluSize=%d", unpacker, len(buf), i, naluSize)
+				return false, 0
+			}
 			totalSize += 4 + naluSize
 			i += 2 + naluSize
 		}
@@ -215,6 +219,11 @@ func (unpacker *RtpUnpackerAvcHevc) TryUnpackOne(list *RtpPacketList) (unpackedF
 
 func calcPositionIfNeededAvc(pkt *RtpPacket) {
 	b := pkt.Body()
+	// 注意，长度不足的包不设置position，这样的包在TryUnpackOne中不会被合帧，等队列满了之后被丢弃
+	if len(b) < 1 || (avc.ParseNaluType(b[0]) == NaluTypeAvcFua && len(b) < 2) {
+		Log.Warnf("rtp packet too short. header=%+v, len=%d", pkt.Header, len(pkt.Raw))
+		return
+	}
 
 	// rfc3984 5.3.  NAL Unit Octet Usage
 	//
@@ -289,6 +298,10 @@ func calcPositionIfNeededAvc(pkt *RtpPacket) {
 
 func calcPositionIfNeededHevc(pkt *RtpPacket) {
 	b := pkt.Body()
+	if len(b) < 2 || (hevc.ParseNaluType(b[0]) == NaluTypeHevcFua && len(b) < 3) {
+		Log.Warnf("rtp packet too short. header=%+v, len=%d", pkt.Header, len(pkt.Raw))
+		return
+	}
 
 	// +---------------+---------------+
 	// |0|1|2|3|4|5|6|7|0|1|2|3|4|5|6|7|
